@@ -244,6 +244,26 @@ var positions = []position{
 	{Name: "match-arm-value", Stmt: `x = match n { 2 => {D}, _ => 5 };`},
 	{Name: "match-default-arm", Stmt: `match n { 0 => println("zero"), _ => {D} };`},
 	{Name: "match-no-default-arm", Stmt: `match n { 2 => {D} }`},
+	// arm ORDER: the type of a branching expression is collected over its branches in the order
+	// written, while both back ends try all literal arms first and the default arm last wherever
+	// it stands. So the diverging branch comes first / the default arm is not the last arm, and
+	// a non-diverging branch behind it is the one taken (n == 2 / c == false).
+	{Name: "match-default-first", Stmt: `match n { _ => {D}, 2 => println("two") }`},
+	{Name: "match-default-first-semi", Stmt: `match n { _ => {D}, 2 => println("two"), 5 => println("five") };`},
+	{Name: "match-default-middle", Stmt: `match n { 0 => {D}, _ => {D}, 2 => println("two") }`},
+	{Name: "match-default-first-value", Stmt: `x = match n { _ => {D}, 2 => 5 };`},
+	{Name: "match-default-first-let", Stmt: `let v = match n { _ => {D}, 1 | 2 => "one-or-two" };
+    println("v", v);`},
+	{Name: "match-default-first-bool", Stmt: `match c { _ => {D}, false => println("false") }`},
+	{Name: "match-default-first-arg", Stmt: `println("arg", match n { _ => {D}, 2 => "two" });`},
+	{Name: "match-first-arms-diverge", Stmt: `match n { 0 => {D}, 1 => {D}, 2 => println("two"), _ => println("default") }`},
+	{Name: "match-first-arm-value", Stmt: `x = match n { 0 => {D}, 2 => 7, _ => 5 };`},
+	{Name: "match-alternatives-arm", Stmt: `match n { 0 | 1 => {D}, _ => println("default") }`},
+	{Name: "if-then-else-live", Stmt: `if c { {D} } else { println("else"); }`},
+	{Name: "if-value-then", Stmt: `x = if c { {D} } else { 1 };`},
+	{Name: "else-if-then", Stmt: `if c { {D} } else if n > 1 { println("else-if"); } else { {D} }`},
+	{Name: "try-body-strict", Stmt: `try { {D} } catch e { println("caught-inside", e.message); }`},
+	{Name: "try-value-body", Stmt: `x = try { {D} } catch e { 3 };`},
 	{Name: "try-body", Stmt: `try { c || {D}; println("try-end"); } catch e { println("caught-inside", e.message); }`},
 	{Name: "try-catch-body", Stmt: `try { if c { throw("inner"); } } catch e { {D} }`},
 	{Name: "while-body", Stmt: `while x < n { x += 1; {D} }`},
